@@ -138,8 +138,8 @@ class C16(Spec):
         elif t[0] == "SV":
             if o[1] != o[2]:
                 return "Server written twice gives different text"
-            if int(o[3]) != len(t) - 1:
-                return "FINDING server-multitoken: Server with %d tokens parses back as %s token(s)" % (len(t) - 1, o[3])
+            if o[4:] != t[1:]:
+                return "Server built from tokens %s is written %r and read back as tokens %s" % ([pv.unhex(x) for x in t[1:]], pv.unhex(o[1]), [pv.unhex(x) for x in o[4:]])
         elif t[0] == "T":
             if o[1] == "err2":
                 return "header %s: the text written for value %r does not parse: %r" % (pv.unhex(t[1]), pv.unhex(t[2]), pv.unhex(o[2]))
@@ -154,11 +154,6 @@ class C16(Spec):
                 g = None if got == "N" else pv.unhex(got[1:])
                 if g != want:
                     return "lookup of %r: expected %r (first occurrence), got %r" % (pv.unhex(nm), want, g)
-        return None
-
-    def known(self, case, impl, model, what):
-        if what and what.startswith("FINDING server-multitoken"):
-            return ("C16-server-multitoken", "Server constructed from several tokens is written joined by blanks and read back as one token (text identical, token vector not equal)")
         return None
 
     def nontrivial(self, case, impl):
